@@ -350,7 +350,7 @@ func genC06Points(r *vc.Run, insts []instance) {
 			val.L(val.I64(0), val.I64(0)),
 		},
 		"ed25519": {
-			val.L(val.I64(0), val.I64(1)), // identity
+			val.L(val.I64(0), val.I64(1)),                               // identity
 			val.L(val.I64(0), val.I(add(tss.Edwards().Params().P, -1))), // order 2
 			val.L(val.I(tss.Edwards().Params().Gx), val.I(tss.Edwards().Params().Gy)),
 		},
